@@ -183,11 +183,23 @@ impl Ctx {
   /// Record a violation. `key` is the canonical identity of the defect (see DESIGN §1.6): one defect,
   /// one key. Only the first witness per key is kept (plus a count).
   pub fn violation<C: Serialize>(&self, key: &str, what: &str, case: &C) {
+    // The witness kept per key is the smallest one (serialised length, then text), so that the
+    // reported case does not depend on worker timing.
+    let case = serde_json::to_value(case).unwrap_or(Value::Null);
+    let size = |v: &Value| {
+      let s = v.to_string();
+      (s.len(), s)
+    };
     let mut m = self.viol.lock().unwrap();
     match m.get_mut(key) {
-      Some(v) => v.count += 1,
+      Some(v) => {
+        v.count += 1;
+        if size(&case) < size(&v.case) {
+          v.case = case;
+          v.what = what.to_string();
+        }
+      }
       None => {
-        let case = serde_json::to_value(case).unwrap_or(Value::Null);
         m.insert(key.to_string(), Viol { key: key.to_string(), what: what.to_string(), case, count: 1 });
       }
     }
